@@ -26,7 +26,7 @@ class Prop:
     def in_model_domain(self, case):
         """False => the case is outside the hypotheses under which the model claims to follow the code
         (only the oracle is evaluated on the implementation)."""
-        return True
+        return not case.get("meta", {}).get("oracle_only")
 
     def nontrivial(self, case, ops, results):
         return True
